@@ -171,7 +171,11 @@ static long null_call(int k, xrl_error **ep, xrl_error **slot) {
   return rc;
 }
 
-static void xv_poison_errno(void) { static unsigned k; static const int v[4] = {ERANGE, EDOM, ENOMEM, 0}; errno = v[k++ & 3]; }   /* see harness/cdrv.c */
+#include <fenv.h>
+static void xv_poison_errno(void) { static unsigned k; static const int v[4] = {ERANGE, EDOM, ENOMEM, 0};
+  /* likewise the floating-point exception flags an application may have raised (seeded change C05-11: fetestexcept without feclearexcept) */
+  feclearexcept(FE_ALL_EXCEPT); if ((k >> 2) & 1) feraiseexcept(FE_DIVBYZERO | FE_INVALID | FE_OVERFLOW);
+  errno = v[k++ & 3]; }   /* see harness/cdrv.c */
 int main(void) {
   static char line[1 << 16], b1[1 << 16], b2[1 << 12];
   char *tok[16];
